@@ -476,7 +476,7 @@ func runC13Restart(s *kernel.Sim) {
 			mb = 0 // exactly the options pool.go opens the database with
 		}
 		// (first in a process of its own: a failed badger.Open leaves goroutines behind that a simulated run cannot end with)
-		if ok, msg := probeOpen(img, mb); !ok {
+		if ok, msg := probeOpen(s, img, mb); !ok {
 			s.Violate("crash_atomic", "database does not open after a crash that tore the last write", "%s: %d of the %d bytes of its write reached the file: the pool does not start again: %s", label, cut-from, to-from, msg)
 			return
 		}
@@ -645,8 +645,8 @@ func dumpDB(dir string, skipPrefix string) (map[string]string, error) {
 // probeOpen opens the database directory in a process of its own and reports whether badgerstore.Open succeeded: a
 // failed Open leaves goroutines of the database behind that a simulated run cannot end with. The directory is changed
 // as Open changes it (migration included): hand it a copy.
-func probeOpen(dir string, mb int) (bool, string) {
-	out, perr := exec.Command(os.Args[0], "-test.run", "^TestWorker$", "-mode", "openprobe", "-trace", dir, "-tier", fmt.Sprint(mb)).CombinedOutput()
+func probeOpen(s *kernel.Sim, dir string, mb int) (bool, string) {
+	out, perr := exec.Command(os.Args[0], "-test.run", "^TestWorker$", "-mode", "openprobe", "-trace", dir, "-tier", fmt.Sprint(mb), "-elapsed", s.Now().String()).CombinedOutput()
 	if perr != nil || !strings.Contains(string(out), "OPEN-") {
 		panic(fmt.Sprintf("openprobe: %v: %s", perr, out))
 	}
@@ -706,13 +706,12 @@ func runC13MigrateBig(s *kernel.Sim) {
 	raw.Close()
 	s.Settle()
 	s.ProbeN("c13.saved_nonces_in_old_database", count)
-	// (asked of a copy, in a process of its own: see probeOpen - that process lives on the real clock, to which every
-	// nonce of this world is ancient)
+	// (asked of a copy, in a process of its own: see probeOpen)
 	img := seams.ScratchDir(s, "c13bimg") + "/probe"
 	if err := seams.CopyDir(dir, img); err != nil {
 		panic(err)
 	}
-	ok, msg := probeOpen(img, 8)
+	ok, msg := probeOpen(s, img, 8)
 	os.RemoveAll(img)
 	if !ok {
 		key := "supported old-format database does not open"
@@ -873,7 +872,7 @@ func runC13Migrate(s *kernel.Sim) {
 		if err := seams.CopyDir(dir, img); err != nil {
 			panic(err)
 		}
-		ok, msg := probeOpen(img, 1)
+		ok, msg := probeOpen(s, img, 1)
 		os.RemoveAll(img)
 		if !ok {
 			s.Violate("migrate", "supported old-format database does not open", "format %d (%d node records, %d saved nonces): Open failed: %s", version, nn+crowd, len(savedNonces), msg)
@@ -913,7 +912,7 @@ func runC13Migrate(s *kernel.Sim) {
 		s.SetYield("txn", 0)
 		img2 := img + "p"
 		seams.CopyDir(img, img2)
-		ok, msg := probeOpen(img2, 1)
+		ok, msg := probeOpen(s, img2, 1)
 		os.RemoveAll(img2)
 		if !ok {
 			os.RemoveAll(img)
